@@ -2,14 +2,19 @@
 from .c08 import replay_behaviours
 from .common import run_model, run_progs
 
-FINISH = dict(rule="R1 MC_Ports/MC_Split (the lazily derived authority accessors of Level I satisfy the Level A split); R3 random "
+FINISH = dict(rule="R1 MC_Ports Inv_EagerIsLazy (Level I of encode_url's pre-filled cache entries against the lazily derived ones on the authority grid; negative configuration finds the empty-host divergence) and YarlMem -simulate behaviours replayed on the real library; R3 random "
                    "programs (auto-encoding and encoded=True creators, modifier chains), every produced URL observed fresh and "
                    "on its pickle (protocols 0 and default) / copy / deepcopy twin, both back ends; TLC evaluates C09.twin.* "
                    "(37 accessors, ==, hash)")
 
 
 def run(out, sc, tier, seed):
-    run_model(out, sc, "MC_Ports", ["Inv_PortText", "Inv_Fallback"], label="MC_Ports[lazy accessors]")
+    run_model(out, sc, "MC_Ports", ["Inv_EagerIsLazy", "Inv_PortText", "Inv_Fallback"], label="MC_Ports[eager = lazy]",
+              what="what encode_url pre-fills (ImplOps!EagerCache) = what _cache_netloc derives from the stored netloc, on 2,352 "
+                   "scheme x userinfo x host x port cells")
+    run_model(out, sc, "MC_Ports", ["Inv_EagerIsLazy_NoExclusion"], label="MC_Ports[negative: empty host not excluded]",
+              expect_violation="Inv_EagerIsLazy_NoExclusion", what="non-vacuity: the empty-host divergence (known finding) is found by TLC")
+    out.exhaustive = True
     n = 6000 if tier == "quick" else 150000
     run_progs(out, sc, "C09", {"gen": "progs", "n": n, "seed": seed, "surrogate_p": 0.02, "extras": ["twin"],
                                "encoded_p": 0.3}, "progs", shard_size=600)
